@@ -5,7 +5,7 @@ use crate::parser::schema::TypeDefinition;
 use crate::ast::{
     InputValueHelpers, SchemaDocumentExtension, TypeDefinitionExtension, TypeExtension,
 };
-use crate::static_graphql::query::Value;
+use crate::static_graphql::query::{Type, Value};
 use crate::validation::utils::ValidationError;
 use crate::{
     ast::{visit_document, OperationVisitor, OperationVisitorContext},
@@ -29,6 +29,41 @@ impl ValuesOfCorrectType {
 
     pub fn is_custom_scalar(&self, type_name: &str) -> bool {
         !matches!(type_name, "String" | "Int" | "Float" | "Boolean" | "ID")
+    }
+
+    /// A list or object literal can never be coerced to a built-in scalar or an
+    /// enum, and a list literal can never be coerced to an input object.
+    fn validate_composite_value(
+        &mut self,
+        visitor_context: &mut OperationVisitorContext,
+        user_context: &mut ValidationErrorContext,
+        raw_value: &Value,
+    ) {
+        if let Some(input_type) = visitor_context.current_input_type_literal() {
+            let named_type = input_type.inner_type();
+
+            if let Some(type_def) = visitor_context.schema.type_by_name(named_type) {
+                let mismatch = match type_def {
+                    TypeDefinition::Scalar(scalar_type_def) => {
+                        !self.is_custom_scalar(&scalar_type_def.name)
+                    }
+                    TypeDefinition::Enum(_) => true,
+                    TypeDefinition::InputObject(_) => matches!(raw_value, Value::List(_)),
+                    _ => false,
+                };
+
+                if mismatch {
+                    user_context.report_error(ValidationError {
+                        error_code: self.error_code(),
+                        message: format!(
+                            "Expected value of type \"{}\", found {}.",
+                            named_type, raw_value
+                        ),
+                        locations: vec![],
+                    })
+                }
+            }
+        }
     }
 
     pub fn validate_value(
@@ -133,12 +168,40 @@ impl<'a> OperationVisitor<'a, ValidationErrorContext> for ValuesOfCorrectType {
         }
     }
 
+    fn enter_list_value(
+        &mut self,
+        visitor_context: &mut OperationVisitorContext<'a>,
+        user_context: &mut ValidationErrorContext,
+        list_value: &Vec<Value>,
+    ) {
+        let expects_list = match visitor_context.current_input_type_literal() {
+            Some(Type::ListType(_)) => true,
+            Some(Type::NonNullType(inner)) => matches!(inner.as_ref(), Type::ListType(_)),
+            _ => false,
+        };
+
+        // Where no list is expected, the list literal itself must be a value of the named type.
+        if !expects_list {
+            self.validate_composite_value(
+                visitor_context,
+                user_context,
+                &Value::List(list_value.clone()),
+            );
+        }
+    }
+
     fn enter_object_value(
         &mut self,
         visitor_context: &mut OperationVisitorContext<'a>,
         user_context: &mut ValidationErrorContext,
         object_value: &BTreeMap<String, Value>,
     ) {
+        self.validate_composite_value(
+            visitor_context,
+            user_context,
+            &Value::Object(object_value.clone()),
+        );
+
         if let Some(TypeDefinition::InputObject(input_object_def)) =
             visitor_context.current_input_type()
         {
